@@ -24,6 +24,21 @@ def _guard(test, size_attrs):
     return None
 
 
+def _archive_objects(f):
+    """Local names bound (with-as / assignment) to an opened archive: ZipFile(...), tarfile.open(...), TarFile(...), SevenZipFile(...)."""
+    out = set()
+    opener = lambda c: isinstance(c, ast.Call) and ast.unparse(c.func).split(".")[-1] in ("ZipFile", "TarFile", "SevenZipFile") or \
+        isinstance(c, ast.Call) and ast.unparse(c.func) in ("tarfile.open", "TarFile.open", "tarfile.TarFile.open")
+    for n in ast.walk(f):
+        if isinstance(n, (ast.With, ast.AsyncWith)):
+            for it in n.items:
+                if opener(it.context_expr) and isinstance(it.optional_vars, ast.Name):
+                    out.add(it.optional_vars.id)
+        elif isinstance(n, ast.Assign) and opener(n.value):
+            out |= {t.id for t in n.targets if isinstance(t, ast.Name)}
+    return out
+
+
 def _seen_through(arch, f, test, branch, size_attrs):
     """Names V for which `test` evaluating to `branch` implies `V.<size attr> <= limit`: the guard up to negation / De Morgan /
     flipped comparison / single-assignment local alias / a local predicate helper (`f(.., V.size)` whose body decides
@@ -44,6 +59,9 @@ def member_size_guard(prop, repo, fn_name, readers, size_attrs, label="member-si
     if f is None:
         return ground_obligation(oid, False, "function missing", ARCH, definite=False), None
     reads = [n for n in ast.walk(f) if isinstance(n, ast.Call) and isinstance(n.func, ast.Attribute) and n.func.attr in readers]
+    arch_objs = _archive_objects(f)
+    if arch_objs:      # `fh.read()` on the stream that `zf.open(V)` returned is not a member read: keep the calls on the archive object
+        reads = [n for n in reads if isinstance(n.func.value, ast.Name) and n.func.value.id in arch_objs]
     if not reads:
         return ground_obligation(oid, False, f"no {'/'.join(readers)} call found", ARCH, definite=False), None
     odd = [n for n in reads if not (n.args and isinstance(n.args[0], ast.Name))]
